@@ -3297,6 +3297,9 @@ class ISLaSolver:
                     self.logger.debug(
                         "Dropping state %s, unsatisfiable SMT formulas", new_state
                     )
+                    # The state is gone; its existential formulas need not (and must
+                    # not) be checked, since a second removal would raise a ValueError.
+                    continue
 
                 # Remove states with unsatisfiable existential formulas.
                 existential_formulas = [
